@@ -383,7 +383,21 @@ def _ionic_strength_pieces(repo, src, tree):
         % (seg(usrc, lim_assign.value), seg(usrc, lim_added)),
     ])
     # the two array returns (scalar lim / broadcast of lim and d) are hand-modelled: their text is guarded
-    arr_text = ' ; '.join(' '.join(ast.unparse(n).split()) for n in t2.orelse)
+    # For the 1-d arrays of the model `len(x) != len(y)` and `np.shape(x) != np.shape(y)` say the same: both spellings of the
+    # "shapes differ" test are normalised to `shape_differs(x, y)` before the text is pinned.
+    class _ShapeTest(ast.NodeTransformer):
+        def visit_Compare(self, n):
+            self.generic_visit(n)
+            if len(n.ops) == 1 and isinstance(n.ops[0], ast.NotEq) and isinstance(n.left, ast.Call) and isinstance(n.comparators[0], ast.Call):
+                l, r = n.left, n.comparators[0]
+                fn = lambda c: ast.unparse(c.func)
+                if (fn(l) == fn(r) and fn(l) in ('len', 'np.shape', 'numpy.shape') and len(l.args) == len(r.args) == 1
+                        and not l.keywords and not r.keywords and isinstance(l.args[0], ast.Name) and isinstance(r.args[0], ast.Name)):
+                    return ast.Call(func=ast.Name(id='shape_differs', ctx=ast.Load()), args=[l.args[0], r.args[0]], keywords=[])
+            return n
+    import copy
+    arr_text = ' ; '.join(' '.join(ast.unparse(ast.fix_missing_locations(_ShapeTest().visit(copy.deepcopy(n)))).split())
+                          for n in t2.orelse)
     return py, ret_text, arr_text
 
 
